@@ -50,6 +50,7 @@ def mk_case(lens, rs, cs=None, has_cs=False, vk="scalar", dtype="int64", recv="f
             "hostile": bool(hostile and np.dtype(dtype).kind == "f")}
 
 
+SCARRIERS = ["pyfloat", "f64", "f32", "i32", "u64", "pyint"]
 MASK_RECVS = ["lazyrows", "lazycols+2", "lazycols-1", "lazychain", "ufunc", "deepcopy", "pickle", "copy-of-lazy", "saveload", "concat", "readonly", "subclass", "was-argument", "unsafe"]
 
 
@@ -213,7 +214,10 @@ def run(case):
         return undefined("value kind %s not applicable to a %s selection" % (vk, kind), tags)
     if kind == "RA" and any(len(r) == 0 for r in cells):
         tags.append("sel-has-empty-row")
-    pyrows = gen.id_rows(lens)
+    OFF = case.get("idoffset", 0) if dt in (np.dtype("int64"), np.dtype("uint64")) else 0       # cell ids far beyond 2**53: a detour of the untouched cells through doubles would show
+    if OFF:
+        tags.append("ids:beyond-2**53")
+    pyrows = gen.id_rows(lens, base=OFF)
     exp = [list(r) for r in pyrows]
     ncell = len(flatcells)
     must_refuse = False
@@ -226,8 +230,30 @@ def run(case):
         value = dt.type(val(0))
         if len(lens) % 2:
             value = val(0)   # plain python number
+        sc_ = case.get("scarrier")
+        if sc_ and not hostile:
+            # the same number carried by another scalar type (a python float, a numpy float / integer scalar): it is converted to the element type on assignment
+            value = {"pyfloat": float, "f64": np.float64, "f32": np.float32, "i32": np.int32, "u64": np.uint64, "pyint": int}[sc_](val(0))
+            tags.append("scalar:" + sc_)
         for (i, j) in flatcells:
             exp[i][j] = val(0)
+    elif vk in ("flatlist", "collist") and case.get("biglist") and dt in (np.dtype("int64"), np.dtype("uint64")) and not hostile:
+        # python lists that mix exact integers beyond 2**53 with a python float: every entry is converted to the (integer) element type on its own
+        tags.append("list:big-ints-and-a-float")
+        nval = ncell if vk == "flatlist" else nsel
+        vals = [2 ** 53 + 1 + 2 * k if k % 2 else 2 ** 62 + 3 + k for k in range(nval)]
+        value = list(vals)
+        if nval > 1:
+            value[0] = 2.0
+            vals[0] = 2
+        if vk == "flatlist":
+            for k, (i, j) in enumerate(flatcells):
+                exp[i][j] = vals[k]
+        else:
+            value = [[c] for c in value]
+            for k, r in enumerate(cells):
+                for (i, j) in r:
+                    exp[i][j] = vals[k]
     elif vk in ("flat", "flatlist"):
         vals = [val(k) for k in range(ncell)]
         value = np.array(vals, dtype=vdt) if vk == "flat" else list(vals)
@@ -274,7 +300,7 @@ def run(case):
     ra, parent = c02.build_receiver(recv, flat, lens)
     alias = ra[...] if parent is None else None   # taking the alias would materialise a lazy receiver
     parent_before = peek(parent) if parent is not None else None
-    by_rows = gen.id_rows(lens, base=500000)
+    by_rows = gen.id_rows(lens, base=OFF + 500000)
     bystander = RA(np.array([v for r in by_rows for v in r], dtype=dt), list(lens))
     ellpad = case.get("ellpad", 0) if (has_cs and rs is not Ellipsis) else 0
     idx = model.make_index(rs, cs, has_cs, ellpad=ellpad)
@@ -360,12 +386,19 @@ def run_mask(case):
         return undefined("the harness's cell ids are not exactly representable in %s for %d rows" % (dt, len(case["lens"])), ["ids-do-not-fit"])
     m = np.array(case["mask"], dtype=bool)
     tags = ["mask:" + vk] + gen.empty_placement(lens)
-    pyrows = gen.id_rows(lens)
+    OFF = case.get("idoffset", 0) if dt in (np.dtype("int64"), np.dtype("uint64")) else 0
+    pyrows = gen.id_rows(lens, base=OFF)
     cells = [(i, j) for i in range(len(lens)) for j in range(lens[i])]
     hit = [c for c, b in zip(cells, m.tolist()) if b]
     exp = [list(r) for r in pyrows]
+    if OFF:
+        tags.append("ids:beyond-2**53")
     if vk == "scalar":
         value = BASE
+        sc_ = case.get("scarrier")
+        if sc_:
+            value = {"pyfloat": float, "f64": np.float64, "f32": np.float32, "i32": np.int32, "u64": np.uint64, "pyint": int}[sc_](BASE)
+            tags.append("scalar:" + sc_)
         for (i, j) in hit:
             exp[i][j] = BASE
     else:
@@ -378,7 +411,7 @@ def run_mask(case):
     mrecv = case.get("maskrecv", "fresh")
     mask, mask_parent = c02.build_receiver(mrecv, m.copy(), list(lens))
     tags = tags + ["maskrecv:" + mrecv]
-    by_rows = gen.id_rows(lens, base=500000)
+    by_rows = gen.id_rows(lens, base=OFF + 500000)
     bystander = RA(np.array([v for r in by_rows for v in r], dtype=dt), list(lens))
     CTX.tick("c03:footprint", len(hit) > 0)
     out = attempt(lambda: ra.__setitem__(mask, value))
@@ -551,6 +584,11 @@ def random_case(rng, tier, lens=None, plain=False):
         c = mk_mask_case(lens, [rng.random() < p for _ in range(sum(lens))], rng.choice(["scalar", "flat"]), dtype)
         if rng.random() < 0.5:
             c["maskrecv"] = rng.choice(MASK_RECVS)
+        if rng.random() < 0.4:
+            c["scarrier"] = rng.choice(SCARRIERS)
+        if rng.random() < 0.4:
+            c["dtype"] = rng.choice(["int64", "uint64"])
+            c["idoffset"] = rng.choice([2 ** 53, 2 ** 62, 2 ** 63 - 10 ** 7])
         return c
     for _ in range(20):
         rs = c02.random_selector(rng, n, allow_oob=False)
@@ -581,6 +619,13 @@ def random_case(rng, tier, lens=None, plain=False):
         vks = [v for v in VK if applicable(kind, v, nsel)]
         recv = rng.choice([r_ for r_ in c02.RECVS if r_ != "readonly"]) if rng.random() < 0.4 else "fresh"
         c = dict(mk_case(lens, rs, cs, h, rng.choice(vks), dtype, recv, hostile=rng.random() < 0.5), ellpad=(rng.choice([1, 2, 3]) if rng.random() < 0.08 else 0))
+        u_ = rng.random()
+        if u_ < 0.15:
+            c["scarrier"] = rng.choice(SCARRIERS)
+        if u_ < 0.25 or (0.5 < u_ < 0.6):
+            c.update(dtype=rng.choice(["int64", "uint64"]), idoffset=rng.choice([2 ** 53, 2 ** 62, 2 ** 63 - 10 ** 7]), hostile=False)
+        if 0.6 < u_ < 0.75 and c["vk"] in ("flatlist", "collist"):
+            c.update(dtype=rng.choice(["int64", "uint64"]), biglist=True, hostile=False)
         if rng.random() < 0.25:
             c["valdtype"] = rng.choice(VALDTYPES)
         return c
